@@ -399,6 +399,21 @@ def fam_c09():
     add("catch-rterr-finally", [Try([Try([P(1), Throw(S("a"))], "e", [P(2), E(Id("zz")), P(9)], f=[P(3)]), P(8)], "e2", [P(5)]), P(4), Ret(I(0))])
     add("catch-throws-finally-in-fn", [FnStmt("f", [], [Defer(Call("p", I(7))), Try([Throw(S("a"))], "e", [P(2), Throw(S("b"))], f=[P(3)]), P(8), Ret(I(1))]), Try([P(Call("f"))], "e2", [P(Id("e2"))]), Ret(I(0))])
     add("catch-throws-finally-top", [Try([P(1), Throw(S("a"))], "e", [P(2), Throw(S("b"))], f=[P(3)]), P(4)])
+    # several invocations of one function alive at once (recursion), after an earlier completed call: each has its own deferred calls
+    add("defer-recursion", [FnStmt("f", ["n"], [Defer(Call("p", Bin("+", I(100), Id("n")))), P(Id("n")), If(Bin(">", Id("n"), I(0)), [E(Call("f", Bin("-", Id("n"), I(1))))]), Defer(Call("p", Bin("+", I(200), Id("n")))), Ret(Id("n"))]),
+                            P(Call("f", I(0))), P(Call("f", I(2))), P(Call("f", I(1))), Ret(I(0))])
+    add("defer-recursion-throw", [FnStmt("f", ["n"], [Defer(Call("p", Bin("+", I(100), Id("n")))), If(Bin(">", Id("n"), I(0)), [E(Call("f", Bin("-", Id("n"), I(1))))], els=[Throw(S("bottom"))]), P(Id("n")), Ret(Id("n"))]),
+                                  E(Call("f", I(0))) if False else Try([E(Call("f", I(0)))], "e", [P(Id("e"))]), Try([P(Call("f", I(2)))], "e", [P(Id("e"))]), Ret(I(0))])
+    add("defer-mutual", [FnStmt("g", ["n"], [Defer(Call("p", Bin("+", I(300), Id("n")))), If(Bin(">", Id("n"), I(0)), [E(Call("f", Bin("-", Id("n"), I(1))))]), Ret(I(0))]),
+                         FnStmt("f", ["n"], [Defer(Call("p", Bin("+", I(100), Id("n")))), E(Call("g", Id("n"))), Defer(Call("p", Bin("+", I(200), Id("n")))), Ret(I(0))]),
+                         E(Call("f", I(0))), E(Call("f", I(2))), Ret(I(0))])
+    add("defer-reentrant-via-callback", [FnStmt("f", ["n", "cb"], [Defer(Call("p", Bin("+", I(100), Id("n")))), If(Bin("!=", Id("cb"), NIL), [E(ACall(Id("cb"), I(7), NIL))]), Defer(Call("p", Bin("+", I(200), Id("n")))), Ret(Id("n"))]),
+                                         E(Call("f", I(1), NIL)), P(Call("f", I(2), Id("f"))), Ret(I(0))])
+    # a failing value in a multi-value return ends the statement there: later values are not evaluated and the error is not lost
+    for bad in (0, 1):
+        vals = [Id("zz") if j == bad else PV(j + 1, I(j + 1)) for j in range(3)]
+        add("return-multi-bad%d" % bad, [FnStmt("f", [], [Defer(Call("p", I(9))), P(0), Ret(*vals)]), Try([P(Call("f")), P(50)], "e", [P(60)], f=[P(61)]), P(62), Ret(I(0))])
+        add("return-multi-bad%d-top" % bad, [P(0), Ret(*vals)])
     # try nesting
     add("nearest-try", [Try([P(1), Try([P(2), Throw(S("in")), P(3)], "e", [P(Id("e")), P(4)]), P(5)], "e2", [P(6)]), P(7), Ret(I(0))])
     add("rethrow", [Try([Try([Throw(S("a"))], "e", [P(Id("e")), Throw(S("b"))]), P(1)], "e2", [P(Id("e2"))]), P(2), Ret(I(0))])
